@@ -45,3 +45,10 @@ func VerifC05_DaemonSetFinalizeReleasesWorkload() {
 	verifrt.Assert(c05Get(body, "spec", "updateStrategy", "rollingUpdate", "paused") == "false", "C05.daemonset.finalize.unpaused")
 	verifrt.Cover("C05.daemonset.done")
 }
+
+// C01: finalising a release that is NOT promoted (batchPartition still set: continuous release, the BatchRelease
+// removed mid-plan) must leave the partition where it is — clearing it would let every pod update at once
+// (obligation partitionKeptForContinuousRelease of the C05 harness).
+func VerifC01_DaemonSetFinalizeKeepsPartitionUnlessPromoted() {
+	VerifC05_DaemonSetFinalizeReleasesWorkload()
+}
